@@ -476,7 +476,7 @@ def _data_param(g: Func) -> Optional[str]:
 
 
 def batcher_idiom(prog, rep: Report, rule: str, bi: Cls):
-    f = bi.methods["__iter__"]
+    f = prog.method_view(bi, "__iter__")      # private (generator) helpers inlined
     body = [s for s in f.node.body if not (isinstance(s, ast.Expr) and isinstance(s.value, ast.Constant))]
     top = [s for s in body if isinstance(s, ast.If) and any(isinstance(x, ast.For) for x in s.body)
            and any(isinstance(x, ast.For) for x in s.orelse)]
@@ -589,12 +589,17 @@ def r10_input_once(prog, rep: Report, pf: PoolFacts):
     if data_field is None:
         rep.unrec("C01.R10", run_, "input", "field holding the input not found in the feeder's __init__")
         return
+    from .poolfam import chunk_generators
+    chunkers = chunk_generators(prog, run_.cls, run_)
+    method_chunkers = [g for g in chunkers if g.name not in run_.nested]
     uses = [n for n in ast.walk(run_.node) if isinstance(n, ast.Attribute) and dotted(n) == (run_.self_name, data_field)]
-    gens = {g.name for g in run_.nested.values() if g.is_generator}
+    for g in method_chunkers:       # a chunking generator that is a method of the feeder reads the field itself
+        uses += [n for n in ast.walk(g.node) if isinstance(n, ast.Attribute) and dotted(n) == (g.self_name, data_field)]
+    gens = {g.name for g in chunkers}
     bad = []
     for u in uses:
         p = getattr(u, "_parent", None)
-        if isinstance(p, ast.Call) and u in p.args and src(p.func) in gens:
+        if isinstance(p, ast.Call) and u in p.args and src(p.func).split(".")[-1] in gens:
             continue
         if isinstance(p, ast.For) and p.iter is u:
             continue
@@ -602,10 +607,11 @@ def r10_input_once(prog, rep: Report, pf: PoolFacts):
     rep.check("C01.R10", run_, "input", len(uses) == 1 and not bad, f"self.{data_field} is passed once to the chunking generator",
               f"self.{data_field} is used {len(uses)} time(s): {bad}",
               scenario="lazily produced input is traversed twice or measured with len()")
-    for g in run_.nested.values():
-        if g.is_generator and g.params:
-            probs = param_used_only_for_iteration(g, g.params[0], set())
-            rep.check("C01.R10", g, "input", not probs, f"`{g.params[0]}` is iterated once", "; ".join(probs),
+    for g in chunkers:
+        dp = _data_param(g)
+        if g.is_generator and dp:
+            probs = param_used_only_for_iteration(g, dp, set())
+            rep.check("C01.R10", g, "input", not probs, f"`{dp}` is iterated once", "; ".join(probs),
                       scenario="lazily produced input is traversed twice or measured with len()")
 
 
